@@ -1,6 +1,7 @@
 import Driver.Proto
 import Gotree.Model.C08
 import Gotree.Model.C08HM
+import Gotree.Model.C08Zero
 import Gotree.Spec.C08
 import Gotree.Spec.C05
 
@@ -57,7 +58,9 @@ def pairTags (r c : T) (tips sc : Bool) : List String :=
   tagIf (!(r.noSingle && c.noSingle)) "singles" ++
   tagIf (maxDeg r > 3 || maxDeg c > 3) "multif" ++
   tagIf (r.tipNames.length ≥ 4) "ge4taxa" ++
-  tagIf ((r.tipNames ++ c.tipNames).any fun n => n.front.isDigit || n.front == '+' || n.front == '-' || n.front == 'A' || n.front == 'a') "alias-names" ++
+  tagIf (let ns := r.tipNames ++ c.tipNames
+         ns.any fun a => ns.any fun b => a != b &&
+           (a.toLower == b.toLower || (a.toInt?.isSome && a.toInt? == b.toInt?) || (b.startsWith a && a.length + 1 == b.length))) "alias-names" ++
   (if hyp && st && uniq then
     let (a, b, d) := counts r c tips
     tagIf (a > 0 && d == 0) "contraction" ++ tagIf (a == 0 && d > 0) "refinement" ++
@@ -111,6 +114,17 @@ def tieCmp (r c : T) (tips sc : Bool) (o : Out Stats) : Option String :=
 
 def negL (l : List Rat) : List Rat := l.map (fun x => -x)
 
+/-- do two weighted records agree (flag; terms as multisets unless the shortcut was used) -/
+def wAgree (sc : Bool) (a b : WStats) : Bool :=
+  a.same == b.same && (sc || (sameMS a.tree1 b.tree1 && sameMS a.tree2 b.tree2 && sameMS a.common b.common))
+
+/-- the region of finding F89 (fixed by 462ffd9): a weighted comparison in which some counted branch has no length
+    and the implementation's record is exactly the one obtained by treating the "no length"
+    marker -1 as a length (the pinned model `compareWeighted`) -/
+def f39 (r c : T) (tips sc : Bool) (w : WStats) : Bool :=
+  (lensAbsent tips r || lensAbsent tips c) &&
+  (match compareWeighted r c tips sc with | .ok m => wAgree sc m w | _ => false)
+
 def oracleW (r c : T) (tips sc : Bool) (o : Out WStats) : Option String :=
   if !(r.uniqueTips && c.uniqueTips) then none else
   match o with
@@ -123,34 +137,39 @@ def oracleW (r c : T) (tips sc : Bool) (o : Out WStats) : Option String :=
     else if !(unrootedOK r && unrootedOK c) then none
     else match out with
       | .ok w =>
-        let ws := wSame r c tips
-        if w.same != ws then some ("weighted Sametree=" ++ toString w.same ++ " but Spec says " ++ toString ws)
+        -- the Spec reads lengths with "absent = 0" (`T.zeroLens`), never the marker -1
+        -- F89 (fixed by 462ffd9): the record obtained by adding the marker -1 as a length
+        let cls := if f39 r c tips sc w then "[the 'no length' marker -1 counted as a length] " else ""
+        let ws := wSame0 r c tips
+        if w.same != ws then some (cls ++ "weighted Sametree=" ++ toString w.same ++ " but Spec says " ++ toString ws)
         else if sc then none
-        -- the terms are lengths: where a counted branch has none (sentinel -1) the term oracle
-        -- does not apply (the flag oracle above and the tie `tieW` do)
-        else if !(lensPresent tips r && lensPresent tips c) then none
-        else if !(wTermsOK r c tips w.tree1 w.tree2 w.common) then
-          some ("weighted terms differ from the Spec: ref " ++ showRatList (sortR w.tree1) ++ " comp " ++
+        else if !(wTermsOK0 r c tips w.tree1 w.tree2 w.common) then
+          some (cls ++ "weighted terms differ from the Spec: ref " ++ showRatList (sortR w.tree1) ++ " comp " ++
                 showRatList (sortR w.tree2) ++ " common " ++ showRatList (sortR w.common))
         else none
       | _ => some "same taxa rejected"
 
+/-- tie: the implementation's record is the one of the model — `compareWeighted` (marker -1 kept:
+    the code at the time of writing) or `compareWeighted0` (absent = 0: the repaired reading);
+    the two coincide whenever every counted branch has a length -/
 def tieW (r c : T) (tips sc : Bool) (o : Out WStats) : Option String :=
   let m := compareWeighted r c tips sc
+  let m0 := compareWeighted0 r c tips sc
   if compareWeightedHM C04.fnv1a (C04.goPolicy 0.75) r c tips sc != .res m then
     some "hash-map model differs from the association-list model" else
   match o with
   | .panic _ => some "implementation panicked"
   | .res out =>
-    match m, out with
-    | .ok a, .ok b =>
-      if a.same != b.same then some ("model weighted Sametree " ++ toString a.same)
-      else if sc then none
-      else if sameMS a.tree1 b.tree1 && sameMS a.tree2 b.tree2 && sameMS a.common b.common then none
-      else some ("model terms ref " ++ showRatList a.tree1 ++ " comp " ++ showRatList a.tree2 ++ " common " ++ showRatList a.common)
-    | .err, .err => none
-    | .refErr, .refErr => none
-    | _, _ => some "model outcome class differs"
+    match m, m0, out with
+    | .ok _, .ok a0, .ok b =>
+      -- since 462ffd9 the code reads an absent length as 0: `compareWeighted0`
+      -- (`compareWeighted`, marker kept, is the pinned variant)
+      if wAgree sc a0 b then none
+      else some ("model terms ref " ++ showRatList a0.tree1 ++ " comp " ++ showRatList a0.tree2 ++ " common " ++
+                 showRatList a0.common ++ " same " ++ toString a0.same)
+    | .err, _, .err => none
+    | .refErr, _, .refErr => none
+    | _, _, _ => some "model outcome class differs"
 
 /-- where the model is tied to the code: every pair of trees with unique tip names.  On the
     trees of the property the oracle applies as well; on rooted trees and trees with
@@ -226,8 +245,8 @@ def handleCore (op : String) (f : List String) : Verdict :=
                          ("rerooted", tieCmp r2 c2 tips sc x3), ("ref,comp", tieErr r tips o1),
                          ("comp,ref", tieErr c tips o2), ("rerooted", tieErr r2 tips o3)] with
         | some m =>
-          -- the tie is property-relative: where the property says nothing (rooted trees,
-          -- single-child nodes) a difference is a fidelity figure, not an alarm
+          -- a difference between model and code is a broken tie everywhere (also on rooted trees,
+          -- single-child nodes: theorems compare_any / compare_self say what the code does there)
           ⟨.tie, tags, m⟩
         | none => ⟨.pass, tags, ""⟩
     | _, _, _, _, _, _, _, _, _ => bad "C08.cmp fields"
@@ -270,8 +289,8 @@ def handleCore (op : String) (f : List String) : Verdict :=
                          ("rerooted", tieW r2 c2 tips sc x3), ("ref,comp", tieErrW o1),
                          ("comp,ref", tieErrW o2), ("rerooted", tieErrW o3)] with
         | some m =>
-          -- the tie is property-relative: where the property says nothing (rooted trees,
-          -- single-child nodes) a difference is a fidelity figure, not an alarm
+          -- a difference between model and code is a broken tie everywhere (also on rooted trees,
+          -- single-child nodes: theorems compare_any / compare_self say what the code does there)
           ⟨.tie, tags, m⟩
         | none => ⟨.pass, tags, ""⟩
     | _, _, _, _, _, _, _, _, _ => bad "C08.wcmp fields"
@@ -321,6 +340,7 @@ def handleCore (op : String) (f : List String) : Verdict :=
       let allSame := cs.all fun c => sameTaxa r c
       let hyp := unrootedOK r && cs.all unrootedOK
       let tags := ["cli", "cli-" ++ mode] ++ tagIf tips "tips" ++ tagIf (!allSame) "difftaxa" ++ tagIf hyp "hyp-unrooted" ++
+        tagIf ((mode == "weighted" || mode == "wbinary") && (lensAbsent tips r || cs.any (lensAbsent tips))) "absent-len" ++
         tagIf (hyp && cs.any fun c => sameTaxa r c && (let (a, b, d) := counts r c tips; b > 0 && (a > 0 || d > 0))) "nontrivial"
       -- the model's records print the same rows (used as the tie; alone, outside the hypotheses)
       let mrow (c : T) (row : List String) : Bool :=
@@ -331,16 +351,23 @@ def handleCore (op : String) (f : List String) : Verdict :=
            | _ => false)
         | "rf", [x] => (match compare r c tips false with | .ok s => x.toInt? == some (rf s) | _ => false)
         | "binary", [_, x] => (match compare r c tips true with | .ok s => parseBool x == some s.same | _ => false)
-        | "wbinary", [_, x] => (match compareWeighted r c tips true with | .ok s => parseBool x == some s.same | _ => false)
+        | "wbinary", [_, x] =>
+          (match compareWeighted r c tips true, compareWeighted0 r c tips true with
+           | .ok _, .ok s0 => parseBool x == some s0.same
+           | _, _ => false)
         | "weighted", [_, x, y] =>
-          (match compareWeighted r c tips false, parseRat? x, parseRat? y with
-           | .ok w, some pw, some pk => approxE pw (wrf w) && decide (absR (pk * pk - kf2 w) * 200000 ≤ kf2 w)
-           | _, _, _ => false)
+          -- the marker-kept model (the code at the time of writing) or the absent = 0 one
+          let okW (w : WStats) (pw pk : Rat) : Bool := approxE pw (wrf w) && decide (absR (pk * pk - kf2 w) * 200000 ≤ kf2 w)
+          (match compareWeighted r c tips false, compareWeighted0 r c tips false, parseRat? x, parseRat? y with
+           | .ok _, .ok w0, some pw, some pk => okW w0 pw pk
+           | _, _, _, _ => false)
         | _, _ => false
       if !hyp then
         -- rooted trees / single-child nodes: tie only
-        (if r.uniqueTips && cs.all (·.uniqueTips) && allSame && outcome == "ok" && rows.length == cs.length then
-           (if (List.zip cs rows).all fun (c, row) => mrow c row then ⟨.pass, "tie-only" :: tags, ""⟩
+        (if r.uniqueTips && cs.all (·.uniqueTips) && allSame then
+           (if outcome != "ok" || rows.length != cs.length then
+              ⟨.tie, "tie-only" :: tags, "the model answers every tree, the command: " ++ outcome ++ ", " ++ toString rows.length ++ " rows"⟩
+            else if (List.zip cs rows).all fun (c, row) => mrow c row then ⟨.pass, "tie-only" :: tags, ""⟩
             else ⟨.tie, "tie-only" :: tags, "model prints other rows (trees outside the property's hypotheses)"⟩)
          else ⟨.pass, "skip-hyp" :: tags, ""⟩) else
       -- the rows expected: one per compared tree up to (excluding) the first one on other taxa
@@ -374,17 +401,27 @@ def handleCore (op : String) (f : List String) : Verdict :=
             else some ("row " ++ toString i ++ ": printed identical=" ++ x)
           | "wbinary", [id, x] =>
             if id.toNat? != some i then some "row id" else
-            if parseBool x == some (wSame r c tips) then none
-            else some ("row " ++ toString i ++ ": printed weighted identical=" ++ x)
+            if parseBool x == some (wSame0 r c tips) then none
+            else some ((if (lensAbsent tips r || lensAbsent tips c) && parseBool x == some (wSame r c tips)
+                        then "[the 'no length' marker -1 counted as a length] " else "") ++
+                       "row " ++ toString i ++ ": printed weighted identical=" ++ x)
           | "weighted", [id, x, y] =>
             if id.toNat? != some i then some "row id" else
             match parseRat? x, parseRat? y with
             | some pw, some pk =>
-              let w : WStats := ⟨onlyLens (U tips r) (U tips c), onlyLens (U tips c) (U tips r),
-                                 commonDiffs (U tips r) (U tips c), false⟩
-              if !approxE pw (wrf w) then some ("row " ++ toString i ++ ": weighted RF " ++ x ++ " expected " ++ showRat (wrf w))
+              -- Spec: lengths with "absent = 0", never the marker -1
+              let r0 := r.zeroLens
+              let c0 := c.zeroLens
+              let w : WStats := ⟨onlyLens (U tips r0) (U tips c0), onlyLens (U tips c0) (U tips r0),
+                                 commonDiffs (U tips r0) (U tips c0), false⟩
+              -- F89: the printed values are those obtained by adding the marker -1 as a length
+              let wm : WStats := ⟨onlyLens (U tips r) (U tips c), onlyLens (U tips c) (U tips r),
+                                  commonDiffs (U tips r) (U tips c), false⟩
+              let cls := if (lensAbsent tips r || lensAbsent tips c) && approxE pw (wrf wm) &&
+                  decide (absR (pk * pk - kf2 wm) * 200000 ≤ kf2 wm) then "[the 'no length' marker -1 counted as a length] " else ""
+              if !approxE pw (wrf w) then some (cls ++ "row " ++ toString i ++ ": weighted RF " ++ x ++ " expected " ++ showRat (wrf w))
               else if !(absR (pk * pk - kf2 w) * 200000 ≤ kf2 w) then
-                some ("row " ++ toString i ++ ": KF " ++ y ++ " expected sqrt of " ++ showRat (kf2 w))
+                some (cls ++ "row " ++ toString i ++ ": KF " ++ y ++ " expected sqrt of " ++ showRat (kf2 w))
               else none
             | _, _ => some "unparsable number"
           | _, _ => some ("unexpected row shape in mode " ++ mode)
@@ -403,7 +440,18 @@ def handleCore (op : String) (f : List String) : Verdict :=
       let st := sameTaxa r c
       let tags := ["cli", "cli-edges"] ++ tagIf hyp "hyp-unrooted" ++ tagIf (!st) "difftaxa" ++
         tagIf (hyp && st && (let (a, b, _) := counts r c false; a > 0 && b > 0)) "nontrivial"
-      if !hyp then ⟨.pass, "skip-hyp" :: tags, ""⟩
+      if !hyp then
+        -- outside the property's hypotheses: tie only (terminal / found of every row against `edgeRows`)
+        (if !(r.uniqueTips && c.uniqueTips && st) then ⟨.pass, "skip-hyp" :: tags, ""⟩
+         else if outcome != "ok" || rows.length != r.splits.length then
+           ⟨.tie, "tie-only" :: tags, "compare edges: " ++ outcome ++ ", " ++ toString rows.length ++ " rows where the model has " ++ toString r.splits.length⟩
+         -- (outside the hypotheses the transfer distance of a duplicated split is not modelled:
+         --  the tie is on the number of rows and the `terminal` column)
+         else if (List.zip (edgeRows r c) rows).all (fun ((mt, _, _), row) =>
+             match row with
+             | [_, _, term, _, _, _] => parseBool term == some mt
+             | _ => false) then ⟨.pass, "tie-only" :: tags, ""⟩
+         else ⟨.tie, "tie-only" :: tags, "model prints other compare-edges rows"⟩)
       else if !st then
         (if outcome == "error" then ⟨.pass, tags, ""⟩
          else ⟨.oracle, tags, "compare edges: tree on differing taxa not rejected with an error: " ++ outcome⟩)
